@@ -329,6 +329,14 @@ func init() {
 		}
 		return out
 	}
+	externals["(*regexp.Regexp).SubexpIndex"] = func(fr *frame, a []value) value {
+		re, ok := reNative(fr, a)
+		name, ok1 := a[1].(string)
+		if !ok || !ok1 {
+			fr.i.ctx.end("UNSUPPORTED", "regexp.SubexpIndex on a symbolic pattern")
+		}
+		return re.SubexpIndex(name)
+	}
 	externals["(*regexp.Regexp).SubexpNames"] = func(fr *frame, a []value) value {
 		re, ok := reNative(fr, a)
 		if !ok {
